@@ -12,6 +12,7 @@ import (
 	"runtime"
 	"sort"
 	"strconv"
+	"strings"
 	"sync"
 	"testing"
 	"time"
@@ -225,19 +226,32 @@ func runGBCase(c gbCase, bin, tmp string, t *testing.T) map[string]interface{} {
 		o := &obs[i]
 		*o = gbEstObs{ID: e.ID, Dir: e.Dir, Order: e.Order, GapMs: e.GapMs, NoPeer: e.NoPeer, ServedBy: -1, Keep: e.Keep, StartedMs: ms()}
 		var wg sync.WaitGroup
+		dialSide, acceptSide := "H", "P"
+		if e.Dir == "p2h" {
+			dialSide, acceptSide = "P", "H"
+		}
 		dial := func() {
 			defer wg.Done()
 			td := time.Now()
+			rec.Log("call.dial", dialSide, int64(e.ID), 0, map[string]interface{}{"dir": e.Dir})
 			tag, err := doDial(e)
 			o.DialMs = time.Since(td).Milliseconds()
 			if err != nil {
 				o.Err = truncate(err.Error(), 200)
+				rec.Log("ret.dial", dialSide, int64(e.ID), 0, map[string]interface{}{"dir": e.Dir, "ok": false, "served_by": -1,
+					"timeout": strings.Contains(err.Error(), "timeout waiting for connection info")})
 				return
 			}
 			o.DialOK = true
 			if n, err := strconv.Atoi(tag); err == nil {
 				o.ServedBy = n
 			}
+			rec.Log("ret.dial", dialSide, int64(e.ID), 0, map[string]interface{}{"dir": e.Dir, "ok": true, "served_by": o.ServedBy, "timeout": false})
+		}
+		doAccept := func(e gbEst) {
+			rec.Log("call.accept", acceptSide, int64(e.ID), 0, map[string]interface{}{"dir": e.Dir})
+			doAccept(e)
+			rec.Log("ret.accept", acceptSide, int64(e.ID), 0, map[string]interface{}{"dir": e.Dir})
 		}
 		gap := time.Duration(e.GapMs) * time.Millisecond
 		switch {
@@ -325,6 +339,21 @@ func runGBCase(c gbCase, bin, tmp string, t *testing.T) map[string]interface{} {
 		}
 	}
 	out["listener_before_ack"] = order
+	if c.Pair == "inproc" && !c.Mux {
+		// the event log of a plain in-process pair is validated against GRPCPlainImpl.tla
+		var tr []map[string]interface{}
+		for _, e := range evs {
+			if !strings.HasPrefix(e.Ev, "grpc.") && !strings.HasPrefix(e.Ev, "call.") && !strings.HasPrefix(e.Ev, "ret.") {
+				continue
+			}
+			m := map[string]interface{}{"seq": e.Seq, "ev": e.Ev, "obj": e.Obj, "a": e.A, "b": e.B, "g": e.G, "t": e.T}
+			for k, v := range e.F {
+				m[k] = v
+			}
+			tr = append(tr, m)
+		}
+		out["events"] = tr
+	}
 	names := map[string]int{}
 	for _, e := range evs {
 		names[e.Ev]++
